@@ -132,6 +132,8 @@ def accept(rec):
 
 
 def keyfn(rec):
+    if rec.get("suite") == "txflow-race":
+        return txflow.race_key(rec)
     if rec.get("suite") == "txflow":
         return txflow.keyfn(rec)
     ops = rec.get("ops", [])
@@ -145,6 +147,7 @@ SPEC = {
     "props_file": ["props/C05.v", "props/C05_node.v"],
     "accept_failure": accept,
     "suites": suites,
+    "extra": txflow.race_extra,
     "keyfn": keyfn,
     "trusted_base": [
         "Coq 8.16.1 kernel (coqc); vm_compute for evaluating model and reference on the cases; no native_compute",
@@ -152,7 +155,8 @@ SPEC = {
         "hand-written model coq/model/MemPool.v of internal/state/mempool.go, tied to the code by the correspondence run on the real state.MemPool (inputs index read through a verif-tagged accessor, clock through an ageing hook)",
         "modelled, not verified: txids / outpoint hashes are ids (SHA256d collision-free), a tx body is the list of outpoints it spends",
     ],
-    "assumptions": ["MemPool methods are atomic (memPool.mutex)"],
+    "assumptions": ["MemPool methods are atomic (memPool.mutex)",
+                    "atomicity at the granularity of processUnconfirmedTx / ProcessBlock / one delay-check iteration for the theorems; the two interleavings the code must exclude by its tx state lock (conflict between the delay check's read and write; conflict while its safe update is being sent) are replayed on the real code with pause points (race_delay, race_send)"],
     "rule": "random sequences over add/remove/conflicting/index/... on universes of 2-6 shared outpoints x 3-8 txs (k-way conflicts, partial overlaps, duplicate outpoint in one tx, zero-input tx) + all 24 arrival orders of a 4-tx conflict pattern; distinct = distinct op lists",
 }
 
